@@ -208,7 +208,7 @@ func runC13_2(c *Ctx) {
 	prep := one(cb, isChange("statusPreparing"), "changeStatus(Preparing)")
 	pd := one(cb, func(i ssa.Instruction) bool { return IsCallTo(i, postDial) }, "postDial")
 	sets := CallsTo(cb, sockSetID)
-	okCb := Dominates(rs, prep) && Dominates(prep, pd) && len(sets) == 2
+	okCb := Dominates(rs, prep) && Dominates(prep, pd) && (len(sets) == 2 || len(sets) == 1) // one SetID per branch, or one SetID of the merged value
 	for _, s := range sets {
 		if !Dominates(rs, s) || !(Dominates(s, prep) || len(p.ReachableFrom(s, func(i ssa.Instruction) bool { return i == prep }, nil, nil)) > 0) {
 			okCb = false
@@ -224,8 +224,18 @@ func runC13_2(c *Ctx) {
 	c.Check(okCb, "redial callback: Reset -> SetID -> Preparing -> postDial(isRedial=true)", p.Pos(cb.Pos()), "in dominance order", "the redial callback does not reset the socket, restore the id, enter Preparing and run the dial hooks (isRedial=true) in that order: hooks run on the old connection / with the wrong id / PreSend-PreReceive refuse to work")
 	// id restoration: one SetID gets the old id read before dialing (a free variable), the other the new local address
 	keepsUser := false
+	var idArgs []ssa.Value
 	for _, s := range sets {
-		arg := Resolve(CallArgs(s)[0])
+		a := Resolve(CallArgs(s)[0])
+		if phi, isPhi := a.(*ssa.Phi); isPhi { // newID := oldID; if ... { newID = LocalAddr() }; SetID(newID)
+			for _, e := range phi.Edges {
+				idArgs = append(idArgs, Resolve(e))
+			}
+		} else {
+			idArgs = append(idArgs, a)
+		}
+	}
+	for _, arg := range idArgs {
 		// the old id: a value computed in the enclosing closure by sess.ID()
 		if fv, ok := arg.(*ssa.FreeVar); ok {
 			if b := freeVarBinding(fv); b != nil {
